@@ -14,7 +14,7 @@ from concurrent.futures import ThreadPoolExecutor
 
 from . import tlc
 
-_RE_VERDICT = re.compile(r'<<"VERDICT", (\d+), (\d+), \{(.*)\}>>')
+_RE_VERDICT = re.compile(r'<<\s*"VERDICT",\s*(\d+),\s*(\d+),\s*\{(.*?)\}\s*>>', re.S)
 
 
 def _clean(o):
